@@ -16,8 +16,10 @@ warnings.filterwarnings('ignore')
 
 VERIF = os.path.dirname(os.path.dirname(os.path.abspath(__file__)))
 LEAN = os.path.join(VERIF, 'lean')
-OUT = os.path.join(VERIF, 'out')
-EVID = os.path.join(VERIF, 'evidence')
+# trial runs against a scratch worktree (tools/try_mutant.sh) redirect their outputs so that they never
+# touch the evidence of the registered checks
+OUT = os.environ.get('KFAC_VERIF_OUT') or os.path.join(VERIF, 'out')
+EVID = os.environ.get('KFAC_VERIF_EVID') or os.path.join(VERIF, 'evidence')
 REPO = os.environ.get('KFAC_REPO', '/repo')
 MODEL_EXE = os.path.join(LEAN, '.lake', 'build', 'bin', 'kfacmodel')
 
